@@ -160,6 +160,9 @@ class SimTransport(asyncio.Transport):
         return default
 
 
+_res_counter = [0]
+
+
 class Net:
     """One simulated device endpoint + the patched seams.  A fresh transport per connection."""
 
@@ -189,10 +192,18 @@ class Net:
             fut = self.loop.create_future()
             self.resolve_futs.append(fut)
             await fut
-        return [
-            hr.AddrInfo(family=socket.AF_INET, type=socket.SOCK_STREAM, proto=socket.IPPROTO_TCP,
-                        sockaddr=hr.IPv4Sockaddr("10.0.0.1", port))
-        ]
+        # one address unless a scenario asks for more (`n_addr_infos`: + IPv6, + a second IPv4); with several the library tries
+        # the remaining ones after a failed connect, so only scenarios whose connect does not FAIL use them
+        n_addr = getattr(self, "n_addr_infos", 1)
+        out = [hr.AddrInfo(family=socket.AF_INET, type=socket.SOCK_STREAM, proto=socket.IPPROTO_TCP,
+                           sockaddr=hr.IPv4Sockaddr("10.0.0.1", port))]
+        if n_addr >= 2:
+            out.insert(0, hr.AddrInfo(family=socket.AF_INET6, type=socket.SOCK_STREAM, proto=socket.IPPROTO_TCP,
+                                      sockaddr=hr.IPv6Sockaddr("fd00::1", port, 0, 0)))
+        if n_addr >= 3:
+            out.append(hr.AddrInfo(family=socket.AF_INET, type=socket.SOCK_STREAM, proto=socket.IPPROTO_TCP,
+                                   sockaddr=hr.IPv4Sockaddr("10.0.0.2", port)))
+        return out
 
     async def _start_connection(self, addr_infos, **kw):
         self.sock_calls.append(self.loop.time())
